@@ -275,6 +275,8 @@ def step (st : St) (line : String) : St × String :=
     | "lopen_abs" :: r => "lopen" :: r
     | "lopen_auto_abs" :: r => "lopen_auto" :: r
     | ["lcommit_cd", l, _] => ["lcommit", l]
+    -- with absolute paths the (vanished) working directory plays no part
+    | ["link_to_gone", f, c, k, t] => ["link_to", f, c, k, t]
     -- a pending write polled again with a longer slice, the rest handed to write_all: all the bytes, once, in order
     | ["wwrite_grow", w, d1, d2] => ["wwrite", w, d1 ++ (d2.drop 1).toString]
     -- the constructors `Writer::create(_with_algo)` / `SyncWriter::create(_with_algo)` are `open` with nothing declared
